@@ -690,7 +690,7 @@ def pack_named_tuple(spec: ValueSpec) -> Expression:
         spec.origin_type
     ]
     annotations = {
-        k: resolved.get(v, v)
+        k: substitute_type_params(v, resolved)
         for k, v in getattr(spec.origin_type, "__annotations__", {}).items()
     }
     fields = getattr(spec.type, "_fields", ())
@@ -732,7 +732,7 @@ def pack_typed_dict(spec: ValueSpec) -> Expression:
         spec.origin_type
     ]
     annotations = {
-        plain_str(k): resolved.get(v, v)
+        plain_str(k): substitute_type_params(v, resolved)
         for k, v in spec.origin_type.__annotations__.items()
     }
     all_keys = list(annotations.keys())
